@@ -7,7 +7,7 @@ import z3
 
 from . import regexc
 from .sym import (
-    And, Opaque, Or, PyRaise, SBool, SFloat, SInt, SObj, SStr, Unsupported, char_term,
+    And, Opaque, Or, PathAbort, PyRaise, SBool, SFloat, SInt, SObj, SStr, SUnb, Unsupported, char_term,
     int_term, is_str, mk_bool, mk_int, mk_str, str_chars, str_eq_term,
 )
 
@@ -35,7 +35,7 @@ def is_space_term(c):
 def str_concat(parts):
     chars = []
     for p in parts:
-        if isinstance(p, Opaque):
+        if isinstance(p, (Opaque, SUnb)):
             return Opaque("str")
         chars.extend(str_chars(p))
     return mk_str(chars)
@@ -304,6 +304,8 @@ def decide_ch(it, t):
 
 
 def s_strip(it, s, chars=None, left=True, right=True):
+    if isinstance(s, SUnb):
+        return SUnb(s.name + "_strip")
     cs = list(str_chars(s))
     if chars is None:
         pred = lambda c: (chr(c).isspace() if isinstance(c, int) else is_space_term(c))  # noqa: E731
@@ -403,6 +405,12 @@ def s_split(it, s, sep=None, maxsplit=-1):
 
 
 def s_partition(it, s, sep):
+    if isinstance(s, SUnb):
+        if not isinstance(sep, str) or not sep:
+            raise Unsupported("partition of unbounded string by symbolic separator")
+        if it.decide(z3.Bool(it.ex.fresh_name("unb_has_sep"))):
+            return (SUnb(s.name + "_head"), sep, SUnb(s.name + "_tail"))
+        return (s, "", "")
     i = s_find(it, s, sep)
     cs = str_chars(s)
     if i < 0:
@@ -522,6 +530,15 @@ def regex_match(it, pattern, string, mode):
     from .sym import SMatch
     if isinstance(pattern.pattern, bytes):
         raise Unsupported("bytes regex")
+    if isinstance(string, SUnb):
+        # an unbounded string: the regex either fails, or it matches -- and then the string
+        # is one of the shaped strings (its length is in accepted_lengths(pattern), computed
+        # exactly from the NFA), which the shaped-string harnesses of the same property cover
+        if it.decide(z3.Bool(it.ex.fresh_name("unb_regex_matches"))):
+            it.ex.run_notes.append(f"handover: {pattern.pattern[:40]} matched an unbounded string")
+            it.ex.handovers = getattr(it.ex, "handovers", 0) + 1
+            raise PathAbort("regex matched an unbounded string: covered by the shaped-string harnesses")
+        return None
     if not isinstance(string, SStr):
         if isinstance(string, str):
             return getattr(pattern, mode)(string)
